@@ -33,7 +33,8 @@ CLAIMED = {
              'clause `ilen` compares the implementation\'s opcode_len with the specification\'s top-five-bits rule. The 32-bit '
              'decoder tree is partitioned exhaustively into ~25k cubes tiling 3*2^27 words; each of the ~430 (class, path) '
              'groups is executed on cube members (representative, all-ones, per-free-bit flips, random) inside and outside IT '
-             'blocks and judged by TLC. MC_Decode (TLC): totality / executability of the spec decode; MC_Cond: IT machine. The '
+             'blocks and judged by TLC. MC_Decode (TLC): totality / executability of the spec decode and Props!SpecStepOK (thorough: on '
+             'every one of the 2^16 halfwords x IT position x {User, Supervisor}); MC_Cond: IT machine. The '
              'repository\'s own test suite is run under a recording pytest plugin and every emulate_cycle() its tests perform in '
              'Thumb state (~600 events) is judged by TLC on the complete state.',
         note='16-bit space exhaustive x IT position; 32-bit: exhaustive class partition of the implementation, sampled '
